@@ -4,6 +4,7 @@ package main
 
 import (
 	"fmt"
+	"os"
 	"go/ast"
 	"go/token"
 	"go/types"
@@ -499,11 +500,15 @@ func (u *Unit) checkFrame(st *State, site int, env *SpecEnv) {
 			excl = append(excl, app("distinct", r, a))
 		}
 		// objects allocated during the call are not part of the caller-visible frame
-		cond := tAnd(append(excl, app("<=", r, st.old.wm))...)
+		cond := tAnd(append(excl, app("<=", r, st.old.wm), app("<=", "0", r))...)
 		if strings.HasPrefix(h, "V!") {
 			cond = tAnd(excl...)
 		}
-		conj = append(conj, fmt.Sprintf("(forall ((%s Int)) (=> %s (= (select %s %s) (select %s %s))))", r, cond, cur, r, ent, r))
+		one := fmt.Sprintf("(forall ((%s Int)) (=> %s (= (select %s %s) (select %s %s))))", r, cond, cur, r, ent, r)
+		if os.Getenv("GOVC_FRAME_SPLIT") != "" {
+			u.oblige(st, fmt.Sprintf("frame[%s]@return.%d", h, site), "frame", "location unchanged: "+h, one, true)
+		}
+		conj = append(conj, one)
 		quant = true
 	}
 	for _, g := range sortedGhostNames(st.gvars) {
@@ -619,6 +624,7 @@ func (o *Obl) query() string {
 	// errors created by fmt.Errorf/errors.New: errors.Is/As go through the wrapped error only
 	b.WriteString(o.D.errAxioms())
 	b.WriteString(o.D.litAxioms())
+	b.WriteString(o.D.heapAxioms())
 	var sents []string
 	for name := range o.D.set {
 		if strings.HasPrefix(strings.Trim(name, "|"), "sentinel!") {
@@ -684,8 +690,8 @@ func (e *Engine) solveAll(obls []*Obl) {
 			defer wg.Done()
 			defer func() { <-sem }()
 			to := e.timeoutS
-			if o.Cover && to > 3 {
-				to = 3
+			if o.Cover && to > 2 {
+				to = 2
 			}
 			if !o.Cover && len(o.Insts) > 3 {
 				// many paths reach this obligation: discharge them in small groups (each group must be valid)
